@@ -347,6 +347,23 @@ func TestC12(t *testing.T) {
 		}
 	}
 
+	// ---- odd metadata KEYS: empty, pseudo-headers, "-bin" alone, upper case, blanks, control characters, non-ASCII, invalid
+	// UTF-8, reserved names, 64 KiB; alone and next to ordinary metadata; on a unary request and on a stream opener
+	for n := range svOddKeys {
+		for _, tok := range []int64{0, 9} {
+			for _, stream := range []bool{false, true} {
+				hdr := fmt.Sprintf("key:%d:%d", n, tok)
+				f := &FrameSpec{Id: 3, Hdr: hdr, Method: mUnary, Src: "src", Dst: "dst", Body: i64(850)}
+				if stream {
+					f = &FrameSpec{Id: 1, Hdr: hdr, Method: mBidi, Src: "src", Dst: "dst"}
+				}
+				frames := []*FrameSpec{f, {Id: 1, Hdr: hdr, Method: mBidi, Src: "src", Dst: "dst", Body: i64(851)},
+					{Id: 1, Hdr: "ok:0", Method: mBidi, Src: "src", Dst: "dst", Status: &[2]int64{0, 0}, Trl: "ok:0"}, svProbe(913)}
+				run("mdkey", frames, []string{"md-key", fmt.Sprintf("key=%d", n), fmt.Sprintf("stream=%v", stream)})
+			}
+		}
+	}
+
 	// ---- long sequences of pairwise DISTINCT ignorable envelopes (distinct unparsable / unknown methods, unknown services,
 	// foreign destinations, mixed), then the probe
 	distinctN := []int{129, 257}
